@@ -365,6 +365,8 @@ func extractFacts(args []string) {
 		atWrite(*repo, filepath.Dir(*out))
 		// census of order-sensitive sites (facts_c06.go): Census.lean; differences to the reviewed expectation are printed as `census-…-site …`
 		extractCensusC06(*repo, filepath.Dir(*out))
+		// processor order of every pipeline command (facts_procorder.go): ProcOrder.lean; an unreadable list is printed as `census-gone-site ProcOrder …`
+		extractProcOrder(*repo, filepath.Dir(*out))
 	}
 }
 
